@@ -20,6 +20,7 @@ EXPLANATION = (
     "duplicate solutions findall/3 must return). Agreement with Prolog for whole programs and tabled recursion is not decided."
     " Added after seed round 6: R6 findall/3 proves its goal in a formula constructed in the same call with keep_order, keep_all and keep_duplicates."
     " Added after seed round 7: R7 registering a `_` of a local scope advances the counter its key is derived from, so every such `_` is a variable of its own."
+    " Added after seed round 8: R8 a returned message list is only extended inside loops (engine modules)."
 )
 TECHNIQUE = "static analysis: abstract interpretation (clause-order domain) over the CFG, purity and who-may-write rules"
 LEVEL_TEXT = EXPLANATION
